@@ -66,94 +66,81 @@ Lemma log_of_nonnil : forall ops, log_of ops <> [].
 Proof. intros ops H. unfold log_of in H. apply app_eq_nil in H. destruct H as [_ H]. discriminate. Qed.
 
 (* ---------------------------------------------------------------- the files recovery sees *)
-Section Case.
-  Variable ops : list op.
-  Variable d : dmg.
-  Hypothesis Hwriter : known_ops ops = 0.
-  Hypothesis Hdmg : dmg_class (log_of ops) d = 0.
+Lemma files_after : forall ops d,
+  dmg_files d (final_files (run ops))
+  = upd_nth (dmg_pos d (length (log_of ops))) (dmg_file d) (map (map SFrame) (log_of ops)).
+Proof. intros ops d. rewrite (writer_files_l ops), dmg_files_pos, map_length. reflexivity. Qed.
 
-  Let log := log_of ops.
-  Let files' := dmg_files d (final_files (run ops)).
+Lemma files_after_nonnil : forall ops d, dmg_files d (final_files (run ops)) <> [].
+Proof.
+  intros ops d. rewrite files_after. apply upd_nth_nonnil.
+  intro H. apply map_eq_nil in H. exact (log_of_nonnil ops H).
+Qed.
 
-  Lemma files_after : files' = upd_nth (dmg_pos d (length log)) (dmg_file d) (map (map SFrame) log).
-  Proof.
-    unfold files'. rewrite (writer_files_l ops Hwriter). rewrite dmg_files_pos. rewrite map_length. reflexivity.
-  Qed.
+(* the frames replay reads from the damaged files = the longest valid prefix of the log *)
+Lemma seg_frames_prefix : forall ops d, dmg_class (log_of ops) d = 0 ->
+  seg_frames (dmg_files d (final_files (run ops))) = valid_prefix (log_of ops) d.
+Proof.
+  intros ops d Hd. rewrite files_after. unfold valid_prefix.
+  apply (frames_after_fault d (log_of ops) (dmg_pos d (length (log_of ops))) 0).
+  - intros j Hj. apply (is_dmg_seg_pos d (length (log_of ops))). exact Hj.
+  - intro Hlt. apply dmg_pos_hit. exact Hlt.
+  - apply dmg_class_seg_ok. exact Hd.
+Qed.
 
-  Lemma seg_frames_prefix : seg_frames files' = valid_prefix log d.
-  Proof.
-    rewrite files_after. unfold seg_frames, valid_prefix.
-    apply (frames_after_fault d log (dmg_pos d (length log)) 0).
-    - intros j Hj. apply (is_dmg_seg_pos d (length log)). exact Hj.
-    - intro Hlt. apply dmg_pos_hit. exact Hlt.
-    - apply dmg_class_seg_ok. exact Hdmg.
-  Qed.
-
-  Lemma last_frames_prefix :
-    valid_frames (last files' []) = skipn (frames_before_last log) (valid_prefix log d).
-  Proof.
-    rewrite files_after. unfold frames_before_last, valid_prefix.
-    apply (last_after_fault d log (dmg_pos d (length log)) 0).
-    - apply log_of_nonnil.
-    - intros j Hj. apply (is_dmg_seg_pos d (length log)). exact Hj.
-    - intro Hlt. apply dmg_pos_hit. exact Hlt.
-    - apply dmg_class_seg_ok. exact Hdmg.
-  Qed.
-End Case.
-
-(* recovery applies exactly the longest valid prefix (all files, and per file id) *)
+(* recovery through the reopened handle applies exactly the longest valid prefix (all files, and per file id) *)
 Lemma recover_prefix_l : forall ops d,
-  ops_ok ops = true -> known_ops ops = 0 -> dmg_class (log_of ops) d = 0 ->
+  ops_ok ops = true -> dmg_class (log_of ops) d = 0 ->
   let vp := valid_prefix (log_of ops) d in
-  let files := dmg_files d (final_files (run ops)) in
+  let files := files_of (reopened (run ops) d) in
   rec_ok vp (recover files) = true /\
   forall fid, rec_ok (by_fid fid vp) (recover_for_file files fid) = true.
 Proof.
-  intros ops d Hok Hw Hd vp files.
+  intros ops d Hok Hd vp files.
   assert (Hvp : Forall OKF vp).
   { unfold vp, valid_prefix. apply vprefix_Forall. apply log_frames_ok. exact Hok. }
-  pose proof (seg_frames_prefix ops d Hw Hd) as Hsf. fold files in Hsf. fold vp in Hsf.
+  assert (Hsf : seg_frames files = vp).
+  { unfold files, reopened. rewrite seg_frames_open by apply files_after_nonnil.
+    apply seg_frames_prefix. exact Hd. }
   split.
   - unfold recover. rewrite Hsf. apply replay_exact. exact Hvp.
   - intro fid. unfold recover_for_file. rewrite Hsf. unfold by_fid. apply replay_exact.
     apply filter_frames_ok. exact Hvp.
 Qed.
 
-(* after damage + Wal::open, read_page returns the last image in the valid prefix *)
+(* after the fault + Wal::open, read_page returns the last image in the valid prefix *)
 Lemma reads_prefix_l : forall ops d,
-  known_ops ops = 0 -> dmg_class (log_of ops) d = 0 ->
-  read_class (log_of ops) (valid_prefix (log_of ops) d) = 0 ->
+  dmg_class (log_of ops) d = 0 ->
   map (read_page (reopened (run ops) d)) read_keys
   = expect_reads (valid_prefix (log_of ops) d) read_keys.
 Proof.
-  intros ops d Hw Hd Hr. unfold reopened. rewrite reads_after_open.
-  rewrite (last_frames_prefix ops d Hw Hd).
-  unfold read_class in Hr.
-  destruct (Nat.ltb_spec 1 (length (log_of ops))) as [Hlen|Hlen].
-  - cbn [andb] in Hr.
-    destruct (rds_eqb (expect_reads (skipn (frames_before_last (log_of ops)) (valid_prefix (log_of ops) d)) read_keys)
-                      (expect_reads (valid_prefix (log_of ops) d) read_keys)) eqn:E.
-    + apply rds_eqb_eq. exact E.
-    + cbn [negb] in Hr. discriminate.
-  - pose proof (log_of_nonnil ops) as Hne.
-    destruct (log_of ops) as [|g [|g2 r]] eqn:El; [contradiction| |cbn [length] in Hlen; lia].
-    unfold frames_before_last. cbn [removelast concat length skipn]. reflexivity.
+  intros ops d Hd. unfold reopened. rewrite reads_after_open by apply files_after_nonnil.
+  rewrite (seg_frames_prefix ops d Hd). reflexivity.
 Qed.
 
 (* every observation of the model satisfies the property outside the finding classes *)
 Lemma c03_main_l : forall ops d,
   ops_ok ops = true -> known_case ops d = 0 -> spec_check ops d (model_obs ops d) = true.
 Proof.
-  intros ops d Hok Hk. unfold known_case in Hk.
-  destruct (Z.eqb_spec (known_ops ops) 0) as [Hw|Hw]; [|cbn [negb] in Hk; contradiction].
-  cbn [negb] in Hk.
-  destruct (Z.eqb_spec (dmg_class (log_of ops) d) 0) as [Hd|Hd]; [|cbn [negb] in Hk; contradiction].
-  cbn [negb] in Hk.
-  destruct (recover_prefix_l ops d Hok Hw Hd) as [Hrec Hfid].
-  pose proof (reads_prefix_l ops d Hw Hd Hk) as Hreads.
+  intros ops d Hok Hd. unfold known_case in Hd.
+  destruct (recover_prefix_l ops d Hok Hd) as [Hrec Hfid].
+  pose proof (reads_prefix_l ops d Hd) as Hreads.
   unfold spec_check, model_obs. cbn [o_ok o_reads o_rec o_rec0 o_rec1 andb].
   rewrite Hreads, rds_eqb_refl. cbn [andb].
   rewrite Hrec, (Hfid 0), (Hfid 1). reflexivity.
+Qed.
+
+(* what Wal::open does with a torn tail: the current segment is cut to the slots of its valid
+   frames (so it ends cleanly and holds nothing else) and the writer continues behind them *)
+Lemma open_cuts_tail_l : forall lo files,
+  let s := open_st lo files in
+  valid_frames (s_file s) = valid_frames (last files []) /\
+  length (s_file s) = length (valid_frames (last files [])) /\
+  s_cur s = length (s_file s) /\ s_off s = length (s_file s) /\ s_pend s = [].
+Proof.
+  intros lo files. cbn [open_st s_file s_cur s_off s_pend].
+  pose proof (valid_frames_cut_clean (last files [])) as Hc. rewrite valid_frames_cut in Hc.
+  rewrite valid_frames_cut. repeat split; try reflexivity; first [exact Hc | symmetry; exact Hc].
 Qed.
 
 (* ---------------------------------------------------------------- the classes are real: one witness each *)
@@ -162,15 +149,19 @@ Definition refutes (k : Z) (ops : list op) (d : dmg) : Prop :=
 
 Definition w (p fill : Z) : op := OWrite (Fr 0 p 3 fill).
 
-Lemma class1_refuted_l : refutes 1 [w 0 1; w 1 2; OReopen; w 2 3] DNone.
-Proof. vm_compute. repeat split. Qed.
-Lemma class2_refuted_l : refutes 2 [w 1 1; w 2 2; OTruncate; w 1 3] DNone.
-Proof. vm_compute. repeat split. Qed.
-Lemma class3_refuted_l : refutes 3 [OSetSync false; w 1 1; OTruncate] DNone.
-Proof. vm_compute. repeat split. Qed.
-Lemma class4_refuted_l : refutes 4 [w 0 1; ORotate; w 1 2] (DFlip 0 40 1).
-Proof. vm_compute. repeat split. Qed.
-Lemma class5_refuted_l : refutes 5 [w 0 1; ORotate; w 1 2] DNone.
-Proof. vm_compute. repeat split. Qed.
 Lemma class6_refuted_l : refutes 6 [w 0 1; w 1 2; w 2 5] (DZero 0 16416 16416 1 1).
+Proof. vm_compute. repeat split. Qed.
+Lemma class7_refuted_l : refutes 7 [w 0 1; w 1 2; ORotate; w 2 3] (DCut 0 16416).
+Proof. vm_compute. repeat split. Qed.
+
+(* the histories that violated the property before /repo commits 3b478c2 (truncate), 68f3fa5
+   (Wal::open) and 8009d11 (recover) now satisfy it *)
+Definition repaired (ops : list op) (d : dmg) : Prop :=
+  ops_ok ops = true /\ known_case ops d = 0 /\ spec_check ops d (model_obs ops d) = true.
+Lemma former_classes_repaired_l :
+  repaired [w 0 1; w 1 2; OReopen; w 2 3] DNone /\
+  repaired [w 1 1; w 2 2; OTruncate; w 1 3] DNone /\
+  repaired [OSetSync false; w 1 1; OTruncate] DNone /\
+  repaired [w 0 1; ORotate; w 1 2] (DFlip 0 40 1) /\
+  repaired [w 0 1; ORotate; w 1 2] DNone.
 Proof. vm_compute. repeat split. Qed.
